@@ -83,6 +83,7 @@ def calls():
         add(p + ":set-mcs1", x, "update_settings", ({3: 1},), {}, [("settings", ((3, 1),))])
         add(p + ":set-unknown", x, "update_settings", ({0x99: 7},), {}, [("settings", ((0x99, 7),))])
         # calls that must raise and contribute nothing
+        add(p + ":set-bad-mixed", x, "update_settings", ({4: 10, 2: 2},), {}, [])      # a valid entry in front of an invalid one
         add(p + ":data5", x, "send_data", (5, b"x"), {}, [])
         add(p + ":trailers1-noes", x, "send_headers", (1, TRL), {}, [hdr(1, "trailers", TRL, False)])
     add("c:set-push0", C, "update_settings", ({2: 0},), {}, [("settings", ((2, 0),))])
@@ -147,7 +148,8 @@ PROFILES = {
     "P3": ["c:req1", "c:req1es", "s:push1", "s:resp2es", "s:data2", "s:resp1es", "c:rst1", "c:rst2", "s:rst1", "c:set-push0", "s:resp1",
            "c:req3", "s:push3", "s:resp3es", "s:resp4es"],
     "P4": ["c:req1", "s:resp1", "c:data1", "s:data1", "c:set-iws-down", "s:set-iws-down", "c:set-iws-up", "s:set-mfs", "c:set-hts0",
-           "s:set-hts0", "c:set-mcs1", "s:set-mcs1", "c:set-unknown", "c:set-push0", "c:req3es", "s:resp3es"],
+           "s:set-hts0", "c:set-mcs1", "s:set-mcs1", "c:set-unknown", "c:set-push0", "c:req3es", "s:resp3es", "c:set-bad-mixed",
+           "s:set-bad-mixed"],
     "P5": ["c:req1", "s:resp1", "c:ping", "s:ping", "c:prio1", "c:prio3-w1", "c:req7prio-w1", "c:req5prio", "s:altsvc", "s:altsvc1", "c:incr", "s:incr", "c:ack1",
            "s:ack1", "s:data1", "c:close", "s:close"],
     "P6": ["c:head1", "c:head1es", "c:trailers1", "c:end1", "s:info1", "s:resp1cl", "s:resp1cl-es", "s:resp1-304es", "s:end1", "s:trailers1"],
